@@ -29,7 +29,7 @@ def gen_case(rng, i):
     base = [gen.rrow(rng, vs, nmax=min(3, nv), dyadic=dy, posbias=0.8) for _ in range(rng.randint(1, 4))]
     ctx = [gen.rrow(rng, vs, nmax=2, dyadic=dy, posbias=0.8) for _ in range(rng.randint(0, 2))]
     S = list(base)
-    shape = i % 10
+    shape = i % 11
     pool = base + ctx
     if shape == 0:
         S.append(rng.choice(base))                      # exact duplicate
@@ -63,6 +63,14 @@ def gen_case(rng, i):
         S.append(({v: -a for v, a in r[0].items()}, -r[1] - rng.choice([1, 2, 2.0**-7])))
     rng.shuffle(S)
     S = S[:6]
+    if shape == 10:
+        # one row whose coefficients are more than eight orders of magnitude apart (9000 against 0.00008): too wide for the certificates,
+        # but whatever comes back must still be a SELECTION of the given rows, which can be compared exactly
+        big, small = rng.choice([9000, 4000, 12000]), rng.choice([0.00008, 0.00004, 0.0001])
+        S = [({vs[0]: big, vs[1]: small * rng.choice([1, -1])}, 0), gen.rrow(rng, vs, nmax=2)]
+        if rng.random() < 0.5:
+            S.reverse()
+        return {"S": S, "ctx": [gen.rrow(rng, vs, nmax=1)] if rng.random() < 0.5 else []}
     if shape == 9:
         # coefficients of very different magnitude (within 1 .. 3*10^5): an opposite pair over (i, o) and a row over (i, j).  The LP that asks
         # whether the third row is redundant is bounded by that row itself, yet the solver's presolve often calls it unbounded
@@ -83,6 +91,11 @@ def gen_case(rng, i):
         # a row without variables (what is left of  x + 1 <= x): vacuous when its constant is >= 0, a contradiction otherwise;
         # first, last or anywhere, in the list or in the context
         free = ({}, rng.choice([-1, -2, -0.5, 0, 1, 3]))
+        if rng.random() < 0.3:
+            # nothing but rows without variables, one of them reading 0 <= 0 (true, if only just)
+            S = [({}, 0)] + [({}, rng.choice([0, 1, 2])) for _ in range(rng.randint(0, 2))]
+            rng.shuffle(S)
+            return {"S": S, "ctx": [({}, rng.choice([0, 3]))] if rng.random() < 0.5 else []}
         where = rng.choice(["first", "first", "last", "any", "ctx"])
         if where == "ctx":
             ctx.insert(rng.randint(0, len(ctx)), free)
